@@ -2,6 +2,7 @@ package main
 
 import (
 	"fmt"
+	"strconv"
 	"io"
 	"os"
 	"strings"
@@ -37,6 +38,9 @@ func main() {
 	defer hlib.Out.Flush()
 	if len(os.Args) < 2 {
 		usage()
+	}
+	if v, err := strconv.Atoi(os.Getenv("C01_LONG")); err == nil {
+		longHistory = v
 	}
 	switch os.Args[1] {
 	case "lua":
